@@ -25,16 +25,71 @@ _feas_ms = int(os.environ.get('PYVC_FEAS_MS', '400'))
 stats = {'feas_calls': 0, 'feas_time': 0.0}
 
 
+_sym_cache = {}
+USE_CONE = [False]      # switched on per function by the contract key `feas_cone` (functions with very long path conditions)
+
+
+def _symbols(e):
+    """uninterpreted constants (any sort) of a term, memoised per term id"""
+    got = _sym_cache.get(e.get_id())
+    if got is not None:
+        return got[0]
+    out = set()
+    seen = set()
+    todo = [e]
+    while todo:
+        x = todo.pop()
+        i = x.get_id()
+        if i in seen:
+            continue
+        seen.add(i)
+        if z3.is_quantifier(x):
+            todo.append(x.body())
+            continue
+        if z3.is_app(x):
+            if x.num_args() == 0 and x.decl().kind() == z3.Z3_OP_UNINTERPRETED:
+                out.add(i)
+            else:
+                todo.extend(x.children())
+    _sym_cache[e.get_id()] = (out, e)
+    return out
+
+
+def _cone(conj):
+    """the conjuncts connected (through shared constants) to the LAST one, which is the condition being decided: dropping the others is a
+    weakening, hence sound for proving infeasibility.  Conjuncts without constants are kept."""
+    if len(conj) < 12:
+        return conj
+    syms = [_symbols(c) for c in conj]
+    reach = set(syms[-1])
+    if not reach:
+        return conj
+    keep = [False] * len(conj)
+    keep[-1] = True
+    changed = True
+    while changed:
+        changed = False
+        for i, sy in enumerate(syms):
+            if not keep[i] and (not sy or sy & reach):
+                keep[i] = True
+                if sy - reach:
+                    reach |= sy
+                    changed = True
+    return [c for c, k in zip(conj, keep) if k]
+
+
 def feasibility_oracle(conj):
     """True unless the conjunction is *proved* unsatisfiable (unknown counts as feasible).
     The check runs on a weakening of the conjunction (quantified conjuncts dropped, every closed sum / max term replaced
     by a fresh constant): cheap, and sound for proving infeasibility."""
-    key = tuple(sorted(c.get_id() for c in conj))
+    key = tuple(sorted(c.get_id() for c in conj)) + (USE_CONE[0],)
     hit = _feas_cache.get(key)
     if hit is not None:
         return hit[0]
     t = time.time()
     light = []
+    if USE_CONE[0]:
+        conj = _cone(conj)
     for c in conj:
         if z3.is_quantifier(c):
             continue
